@@ -90,6 +90,12 @@ func (partyIDs IDSlice) WriteTo(w io.Writer) (int64, error) {
 	}
 	nAll := int64(4)
 	for _, id := range partyIDs {
+		// each ID is prefixed with its length, so that different slices never produce the same bytes
+		err = binary.Write(w, binary.BigEndian, uint64(len(id)))
+		if err != nil {
+			return nAll, err
+		}
+		nAll += 8
 		n, err = w.Write([]byte(id))
 		nAll += int64(n)
 		if err != nil {
